@@ -486,6 +486,11 @@ class Simulator(EventProducer, SimulatorInterface, Generic[TIME]):
         return self._replication_state
 
     def end_replication(self):
+        if (self.__worker is None or self._replication_state in (
+                ReplicationState.NOT_INITIALIZED, ReplicationState.ENDING,
+                ReplicationState.ENDED)):
+            raise DSOLError("cannot end a replication that has not been " + 
+                            "initialized or that has already ended")
         self._replication_state = ReplicationState.ENDING
         self.__worker.wakeup()  # just to be sure
         if self._simulator_time < self._replication.end_sim_time:
